@@ -522,11 +522,13 @@ class Array(Environment):
         before = None
         leftborder = None
 
-        tex.pushToken(Array)
+        # Marks the end of the colspec tokens in the stream
+        endmarker = Command()
+        tex.pushToken(endmarker)
         tex.pushTokens(colspec)
 
         for tok in tex.itertokens():
-            if tok is Array:
+            if tok is endmarker:
                 break
 
             if tok.isElementContentWhitespace:
